@@ -101,6 +101,8 @@ def abandoned_train(seq):
 
 
 def prop(case):
+    if case.get('reuse_after_end'):
+        return reuse_prop(case)
     real, k, role, seq = case['real'], case['k'], case['role'], [tuple(x) for x in case['seq']]
     prog = c07.build(real, k, role, seq, msg=case.get('msg', False))
     if role == 'requester' and k == 'ch':
@@ -144,4 +146,76 @@ def shard(tier, seed, real, k, role, depth, part, parts):
             if not any(v['sig'] == vv['sig'] for vv, _ in stats.violations):
                 stats.violations.append((v, case))
     stats.classes['rawpeer:%s:%s:%s:depth<=%d' % (real, k, role, depth)] += n
+    return stats
+
+
+# ---- "the stream's id can be used again": a raw requester ends an interaction and opens a new one on the same id
+
+def reuse_cases():
+    for real in ('c', 's'):
+        for k0 in ('rr', 'st'):
+            for ending in ('peer_cancel', 'answered'):
+                for again in ('rr', 'st', 'fnf'):
+                    for same_read in (True, False):
+                        for msg in (False, True):
+                            yield {'reuse_after_end': True, 'real': real, 'k0': k0, 'ending': ending, 'again': again,
+                                   'same_read': same_read, 'msg': msg, 'rawpeer': True}
+
+
+def reuse_prop(case):
+    real = case['real']
+    raw = 's' if real == 'c' else 'c'
+    k0 = case['k0']
+    spec = {'k': k0, 'side': raw, 'req': [6, 2]}
+    if k0 == 'rr':
+        spec['resp'] = {'mode': 'manual', 'p': [9, 3]}
+    else:
+        spec['src'] = {'kind': 'manual', 'els': [[5, 0]], 'end': 'flag'}
+        spec['sub'] = {'n0': 10, 'refill': 0}
+    ops = [['tick', 3], ['start'], ['tick', 3]]
+    if case['ending'] == 'answered':
+        ops += [['resolve', 0]] if k0 == 'rr' else [['emit', 0, 'resp', 1]]
+        ops += [['tick', 3]]
+    if case['same_read']:
+        ops += [['regime', 'manual']]
+    if case['ending'] == 'peer_cancel':
+        ops += [['rawf', 0, 'cancel', None]]
+        if not case['same_read']:
+            ops += [['tick', 2]]
+    ops += [['rawreuse', 0, case['again']]]
+    if case['same_read']:
+        ops += [['deliver', raw, None], ['regime', 'pumped']]
+    ops += [['tick', 5], ['settle']]
+    prog = {'cfg': {'msg': case['msg'], 'frag': [None, None], 'rbuf': [1024, 1024], 'raw': raw}, 'inter': [spec], 'ops': ops,
+            'heal': False}
+    tr = run_program(prog)
+    out = []
+    sid = tr.scn.st[0]['sid']
+    facts = {k: case[k] for k in ('real', 'k0', 'ending', 'again', 'same_read')}
+    rejected = [f for f in tr.scn.raw.frames if f['sid'] == sid and f['type'] == 'ERROR' and f.get('code') == 0x202]
+    if rejected:
+        out.append(viol('id_of_ended_interaction_not_reusable', 'C10:id_not_reusable:%s:%s' % (k0, case['ending']), **facts))
+    handled = [e for e in tr.world.log if e['ev'] == 'handler' and e['side'] == real and e.get('sid') == sid]
+    if len(handled) != 2 and not rejected:
+        out.append(viol('request_on_reused_id_not_dispatched', 'C10:reuse_not_dispatched:%s' % k0, n=len(handled), **facts))
+    out += monitors.mon_no_loop_errors(tr, PID)
+    return out
+
+
+def reuse_shard(tier, seed):
+    common.use_repo()
+    stats = common.Stats()
+    known = common.Known(PID)
+    n = 0
+    for case in reuse_cases():
+        vs = reuse_prop(case)
+        n += 1
+        stats.evaluations += 1
+        stats.nontrivial.add(hash(tuple(sorted(case.items()))))
+        if len(stats.samples) < 1:
+            stats.samples.append(case)
+        for v in common.judge(stats, known, case, vs):
+            if not any(v['sig'] == vv['sig'] for vv, _ in stats.violations):
+                stats.violations.append((v, case))
+    stats.classes['rawpeer:id_reuse_after_end'] += n
     return stats
